@@ -311,6 +311,9 @@ func parserErrorLocations(run *core.Run) {
 			}
 			return false
 		}
+		if has("AGAINST") {
+			continue // the mode words of MATCH ... AGAINST (...) are read up to the closing parenthesis, whatever they are
+		}
 		if has("[") {
 			poison = "THEN"
 			if has("CASE") || has("WHEN") {
